@@ -52,6 +52,7 @@ type Engine struct {
 	topModifies    []allocRec
 	topRegionStart int
 	topSplits      []*Term
+	topGhostMods   []designator
 
 	abstracted    map[string][]string
 	inlined       map[string]bool
@@ -67,6 +68,7 @@ type Engine struct {
 	inputNames    []string
 	specCallCache map[string]SV
 	deferred      []string // clauses only checked in the thorough tier
+	skolemPool    []*Term
 }
 
 func loadWorld(repo string, pkgPatterns []string) (*World, error) {
@@ -140,6 +142,7 @@ func (w *World) newEngine() *Engine {
 		abstracted: map[string][]string{}, inlined: map[string]bool{}, trusted: map[string]bool{}, usedContracts: map[string]bool{},
 		specCallCache: map[string]SV{}, boundedLoops: map[string]int{}, pureCache: map[*ssa.Function]bool{}, maxNodes: 20000, autoInlineMax: 60}
 	e.mc.rom = e.romLookup
+	e.skolemPool = []*Term{tb.Var("sk!0", BV(64)), tb.Var("sk!1", BV(64))}
 	return e
 }
 
@@ -331,7 +334,18 @@ func (w *World) verifyFunc(name string, con *Contract) (jr *JobResult) {
 		}
 	}
 	mem0 := e.mc.Base("mem0")
-	f.params, f.free, f.entryMem = args, free, mem0
+	// the pre-state heap is well typed: pointers, slices, strings and
+	// interface words stored in objects the parameters point to denote
+	// pre-existing memory (below preLimit)
+	for i, p := range fn.Params {
+		if s, ok := args[i].(Scalar); ok {
+			if pt, ok := p.Type().Underlying().(*types.Pointer); ok {
+				e.assumeWellTyped(mem0, s.T, pt.Elem(), 2, tb.Ne(s.T, tb.ConstU(0, 64)))
+			}
+		}
+	}
+	gh0 := e.freshGhost("")
+	f.params, f.free, f.entryMem, f.entryGh = args, free, mem0, gh0
 	sc := f.entryScope(args, free, mem0)
 	for _, r := range con.Requires {
 		sc.goal = false
@@ -344,8 +358,12 @@ func (w *World) verifyFunc(name string, con *Contract) (jr *JobResult) {
 	}
 	for _, r := range con.Modifies {
 		sc.goal = false
-		lo, n := e.evalRegion(sc, r.Expr, r.Text)
-		e.topModifies = append(e.topModifies, allocRec{lo, n})
+		d := e.evalDesignator(sc, r.Expr, r.Text)
+		if d.ghost == "" {
+			e.topModifies = append(e.topModifies, allocRec{d.lo, d.n})
+		} else {
+			e.topGhostMods = append(e.topGhostMods, d)
+		}
 	}
 	e.topRegionStart = len(e.regions)
 	if sp := con.Split; sp != nil {
@@ -378,7 +396,7 @@ func (w *World) verifyFunc(name string, con *Contract) (jr *JobResult) {
 	// vacuity guard: the preconditions must be satisfiable
 	e.obls = append(e.obls, &Obligation{ID: name + "#vacuity:requires", Kind: "vacuity", Label: "requires", Func: name, Cond: tb.True(), Goal: tb.False(),
 		NAssume: len(e.assumes), Desc: "preconditions and type invariants are satisfiable (must be sat)", Props: con.Props})
-	f.run(args, free, mem0, tb.True(), pathFlags{})
+	f.run(args, free, mem0, gh0, tb.True(), pathFlags{})
 	if len(f.rets) == 0 && len(con.Ensures) > 0 {
 		jr.Err = "no return reached"
 	}
@@ -387,7 +405,7 @@ func (w *World) verifyFunc(name string, con *Contract) (jr *JobResult) {
 }
 
 func (f *Frame) entryScope(args, free []Val, mem *Mem) *Scope {
-	st := &execState{reach: f.e.tb.True(), env: map[ssa.Value]Val{}, mem: mem}
+	st := &execState{reach: f.e.tb.True(), env: map[ssa.Value]Val{}, mem: mem, gh: f.entryGh}
 	return f.scopeAt(st, nil)
 }
 
@@ -457,7 +475,8 @@ func (w *World) verifyLemma(lm *Lemma) (jr *JobResult) {
 	e := w.newEngine()
 	jr.engine = e
 	tb := e.tb
-	sc := &Scope{e: e, vars: map[string]SV{}, mem: e.mc.Base("mem0"), goal: true}
+	gh0 := e.freshGhost("")
+	sc := &Scope{e: e, vars: map[string]SV{}, mem: e.mc.Base("mem0"), gh: gh0, oldGh: gh0, goal: true}
 	for _, p := range lm.Params {
 		st, ok := specTypes[p.Type]
 		switch {
@@ -497,4 +516,50 @@ func (w *World) verifyLemma(lm *Lemma) (jr *JobResult) {
 		NAssume: len(e.assumes), Desc: lm.Text, Props: lm.Props})
 	jr.collect(e)
 	return
+}
+
+// assumeWellTyped adds the type invariants of the object of type t stored at
+// addr in the pre-state (guarded by cond, typically addr != nil).
+func (e *Engine) assumeWellTyped(m *Mem, addr *Term, t types.Type, depth int, cond *Term) {
+	tb := e.tb
+	lim := tb.ConstU(preLimit-(1<<32), 64)
+	switch u := t.Underlying().(type) {
+	case *types.Struct:
+		offs := structOffsets(u)
+		for i := 0; i < u.NumFields(); i++ {
+			e.assumeWellTyped(m, tb.Add(addr, tb.ConstU(uint64(offs[i]), 64)), u.Field(i).Type(), depth, cond)
+		}
+	case *types.Array:
+		if u.Len() <= 4 {
+			esz := sizes.Sizeof(u.Elem())
+			for i := int64(0); i < u.Len(); i++ {
+				e.assumeWellTyped(m, tb.Add(addr, tb.ConstU(uint64(i*esz), 64)), u.Elem(), depth, cond)
+			}
+		}
+	case *types.Pointer:
+		v := e.mc.ReadLE(m, addr, 64)
+		e.assume(tb.Implies(cond, tb.Ult(v, lim)))
+		if depth > 0 {
+			e.assumeWellTyped(m, v, u.Elem(), depth-1, tb.And(cond, tb.Ne(v, tb.ConstU(0, 64))))
+		}
+	case *types.Map, *types.Chan, *types.Signature:
+		e.assume(tb.Implies(cond, tb.Ult(e.mc.ReadLE(m, addr, 64), lim)))
+	case *types.Basic:
+		switch {
+		case u.Kind() == types.UnsafePointer:
+			e.assume(tb.Implies(cond, tb.Ult(e.mc.ReadLE(m, addr, 64), lim)))
+		case u.Kind() == types.String:
+			s := StringV{e.mc.ReadLE(m, addr, 64), e.mc.ReadLE(m, tb.Add(addr, tb.ConstU(8, 64)), 64)}
+			for _, iv := range e.stringInv(s) {
+				e.assume(tb.Implies(cond, iv))
+			}
+		}
+	case *types.Slice:
+		s := SliceV{e.mc.ReadLE(m, addr, 64), e.mc.ReadLE(m, tb.Add(addr, tb.ConstU(8, 64)), 64), e.mc.ReadLE(m, tb.Add(addr, tb.ConstU(16, 64)), 64)}
+		for _, iv := range e.sliceInv(s, sizes.Sizeof(u.Elem())) {
+			e.assume(tb.Implies(cond, iv))
+		}
+	case *types.Interface:
+		e.assume(tb.Implies(cond, tb.Ult(e.mc.ReadLE(m, tb.Add(addr, tb.ConstU(8, 64)), 64), lim)))
+	}
 }
